@@ -135,7 +135,7 @@ func init() {
 				c.find("unmarshal", guards[:1], 0, `^if _ == (\d+) \[name\]`, "extensionServerName")
 				c.find("unmarshal", guards[len(guards)-1:], 0, `^if _ == (\d+) \[name\]`, "nameTypeHost")
 			} else {
-				x.fail("unmarshal: the store to .%s is not guarded by an extension-type and a name-type test", nameField)
+				c.notes = append(c.notes, fmt.Sprintf("unmarshal: the store to .%s is not guarded by an extension-type and a name-type test", nameField))
 			}
 		}
 
@@ -146,6 +146,7 @@ func init() {
 			c.find("ServeTCP", fl, 0, `^hdr=reader\.Peek\((\d+)\)$`, "peekArg")
 			c.find("ServeTCP", fl, 0, `^host=readServerName\(buf\[(\d+):\]\)$`, "recHdrSkip")
 		}
+		x.defStrList("shapeNotes", c.notes)
 		return nil
 	})
 }
@@ -154,6 +155,121 @@ type c10 struct {
 	x      *X
 	dir    string
 	locals map[string]bool
+	// alias: locals that only name a pure integer expression over other stable locals and constants
+	// (`end := 39 + sessionIdLen`, defined once, never assigned again): they are replaced by their defining
+	// expression before an event is rendered, so hoisting a repeated offset into a local changes no fact.
+	alias map[string]ast.Expr
+	notes []string // shape patterns that were not found (see find)
+	skip  map[ast.Node]bool
+}
+
+// c10pureArith: identifiers, literals, parentheses and integer arithmetic only (no index, slice, call).
+func c10pureArith(e ast.Expr) bool {
+	switch v := e.(type) {
+	case *ast.Ident, *ast.BasicLit:
+		return true
+	case *ast.ParenExpr:
+		return c10pureArith(v.X)
+	case *ast.BinaryExpr:
+		switch v.Op {
+		case token.ADD, token.SUB, token.MUL, token.SHL, token.SHR, token.OR, token.AND:
+			return c10pureArith(v.X) && c10pureArith(v.Y)
+		}
+	}
+	return false
+}
+
+// collectAliases fills c.alias from the bodies of the given functions.
+func (c *c10) collectAliases(fds []*ast.FuncDecl) {
+	c.alias = map[string]ast.Expr{}
+	writes := map[string]int{}
+	cand := map[string]ast.Expr{}
+	for _, fd := range fds {
+		if fd.Body == nil {
+			continue
+		}
+		ast.Inspect(fd.Body, func(n ast.Node) bool {
+			switch s := n.(type) {
+			case *ast.AssignStmt:
+				for i, l := range s.Lhs {
+					id, ok := l.(*ast.Ident)
+					if !ok {
+						continue
+					}
+					writes[id.Name]++
+					if s.Tok == token.DEFINE && len(s.Lhs) == len(s.Rhs) && c10pureArith(s.Rhs[i]) {
+						if _, isIdent := c10unparen(s.Rhs[i]).(*ast.Ident); !isIdent {
+							if _, isLit := c10unparen(s.Rhs[i]).(*ast.BasicLit); !isLit {
+								cand[id.Name] = s.Rhs[i]
+							}
+						}
+					}
+				}
+			case *ast.IncDecStmt:
+				if id, ok := s.X.(*ast.Ident); ok {
+					writes[id.Name] += 2
+				}
+			case *ast.RangeStmt:
+				for _, e := range []ast.Expr{s.Key, s.Value} {
+					if id, ok := e.(*ast.Ident); ok {
+						writes[id.Name] += 2
+					}
+				}
+			}
+			return true
+		})
+	}
+	for name, rhs := range cand {
+		if writes[name] != 1 {
+			continue
+		}
+		stable := true
+		ast.Inspect(rhs, func(n ast.Node) bool {
+			if id, ok := n.(*ast.Ident); ok && writes[id.Name] > 1 {
+				stable = false
+			}
+			return stable
+		})
+		if stable {
+			c.alias[name] = rhs
+		}
+	}
+}
+
+// subst returns e with every alias replaced by its (parenthesised) defining expression; e itself is not modified.
+func (c *c10) subst(e ast.Expr) ast.Expr { return c.substDepth(e, 0) }
+
+func (c *c10) substDepth(e ast.Expr, depth int) ast.Expr {
+	if e == nil || len(c.alias) == 0 || depth > 8 {
+		return e
+	}
+	switch v := e.(type) {
+	case *ast.Ident:
+		if rhs, ok := c.alias[v.Name]; ok {
+			return &ast.ParenExpr{X: c.substDepth(rhs, depth+1)}
+		}
+		return v
+	case *ast.ParenExpr:
+		return &ast.ParenExpr{X: c.substDepth(v.X, depth)}
+	case *ast.BinaryExpr:
+		return &ast.BinaryExpr{X: c.substDepth(v.X, depth), Op: v.Op, OpPos: v.OpPos, Y: c.substDepth(v.Y, depth)}
+	case *ast.UnaryExpr:
+		return &ast.UnaryExpr{Op: v.Op, OpPos: v.OpPos, X: c.substDepth(v.X, depth)}
+	case *ast.CallExpr:
+		n := *v
+		n.Args = nil
+		for _, a := range v.Args {
+			n.Args = append(n.Args, c.substDepth(a, depth))
+		}
+		return &n
+	case *ast.IndexExpr:
+		return &ast.IndexExpr{X: v.X, Lbrack: v.Lbrack, Index: c.substDepth(v.Index, depth), Rbrack: v.Rbrack}
+	case *ast.SliceExpr:
+		n := *v
+		n.Low, n.High, n.Max = c.substDepth(v.Low, depth), c.substDepth(v.High, depth), c.substDepth(v.Max, depth)
+		return &n
+	}
+	return e
 }
 
 // constDecl finds the defining expression of a package-level constant (nil if there is none).
@@ -454,15 +570,18 @@ func (c *c10) collectLocals(fd *ast.FuncDecl) {
 	}
 	add(fd)
 	seen := map[*ast.FuncDecl]bool{fd: true}
+	all := []*ast.FuncDecl{fd}
 	c.x.WalkInlined(c.dir, fd, func(n ast.Node) bool {
 		if call, ok := n.(*ast.CallExpr); ok {
 			if callee := c.inlinedCallee(call); callee != nil && !seen[callee] {
 				seen[callee] = true
 				add(callee)
+				all = append(all, callee)
 			}
 		}
 		return true
 	})
+	c.collectAliases(all)
 }
 
 // storesField reports whether the statements (with helpers inlined) assign to a field of that name.
@@ -521,12 +640,16 @@ func (c *c10) outcome(body *ast.BlockStmt) string {
 //	slice _[a:b]                              every slice expression with two constant bounds
 func (c *c10) events(fd *ast.FuncDecl, nameField string) []string {
 	c.collectLocals(fd)
+	c.skip = map[ast.Node]bool{}
 	var out []string
 	c.x.WalkInlined(c.dir, fd, func(n ast.Node) bool {
 		switch s := n.(type) {
 		case *ast.FuncLit:
 			return false
 		case *ast.IfStmt:
+			if c.skip[s] {
+				return true
+			}
 			cond := c10unparen(s.Cond)
 			if u, ok := cond.(*ast.UnaryExpr); ok && u.Op == token.NOT {
 				cond = c10unparen(u.X)
@@ -538,10 +661,25 @@ func (c *c10) events(fd *ast.FuncDecl, nameField string) []string {
 			if c.storesField(s.Body, nameField) {
 				tag = " [name]"
 			}
-			out = append(out, "if "+c.expr(s.Cond)+tag+c.outcome(s.Body))
+			out = append(out, "if "+c.expr(c.subst(s.Cond))+tag+c.outcome(s.Body))
+		case *ast.CallExpr:
+			// a re-slice handed to an inlined helper (`return m.rest(data[n:])`) is the helper's `data = data[n:]`
+			if c.inlinedCallee(s) != nil {
+				for _, a := range s.Args {
+					if se, ok := c10unparen(a).(*ast.SliceExpr); ok && se.Low != nil && se.High == nil {
+						if base, ok := se.X.(*ast.Ident); ok && c.locals[base.Name] {
+							out = append(out, "advance "+c.expr(c.subst(se)))
+						}
+					}
+				}
+			}
 		case *ast.ForStmt:
 			if s.Cond != nil {
-				out = append(out, "for "+c.expr(s.Cond))
+				out = append(out, "for "+c.expr(c.subst(s.Cond)))
+			} else if g := c10loopGuard(s); g != nil {
+				// `for { if C { break }; … }` is `for !C { … }`
+				out = append(out, "for "+c.expr(c.subst(c10negate(g.Cond))))
+				c.skip[g] = true
 			} else {
 				out = append(out, "for")
 			}
@@ -551,19 +689,19 @@ func (c *c10) events(fd *ast.FuncDecl, nameField string) []string {
 				rhs := c10unparen(s.Rhs[0])
 				if se, ok := rhs.(*ast.SliceExpr); ok && isId && s.Tok == token.ASSIGN {
 					if base, ok := se.X.(*ast.Ident); ok && base.Name == lhs.Name && se.High == nil {
-						out = append(out, "advance "+c.expr(se))
+						out = append(out, "advance "+c.expr(c.subst(se)))
 					}
 				} else if s.Tok == token.DEFINE && isId {
 					if _, isSlice := rhs.(*ast.SliceExpr); !isSlice && c.inlinedCallee(rhs) == nil && c10hasIndex(rhs) {
-						out = append(out, "let "+c.expr(rhs))
+						out = append(out, "let "+c.expr(c.subst(rhs)))
 					}
 				}
 			}
 		case *ast.SliceExpr:
 			if s.Low != nil && s.High != nil {
-				if _, ok := c.intConst(s.Low, 0); ok {
-					if _, ok := c.intConst(s.High, 0); ok {
-						out = append(out, "slice "+c.expr(s))
+				if _, ok := c.intConst(c.subst(s.Low), 0); ok {
+					if _, ok := c.intConst(c.subst(s.High), 0); ok {
+						out = append(out, "slice "+c.expr(c.subst(s)))
 					}
 				}
 			}
@@ -571,6 +709,37 @@ func (c *c10) events(fd *ast.FuncDecl, nameField string) []string {
 		return true
 	})
 	return out
+}
+
+// c10loopGuard: the leading `if C { break }` of a condition-less loop (no init, no else), or nil.
+func c10loopGuard(f *ast.ForStmt) *ast.IfStmt {
+	if f.Init != nil || f.Post != nil || f.Body == nil || len(f.Body.List) == 0 {
+		return nil
+	}
+	g, ok := f.Body.List[0].(*ast.IfStmt)
+	if !ok || g.Init != nil || g.Else != nil || len(g.Body.List) != 1 {
+		return nil
+	}
+	if b, ok := g.Body.List[0].(*ast.BranchStmt); ok && b.Tok == token.BREAK && b.Label == nil {
+		return g
+	}
+	return nil
+}
+
+// c10negate returns the negation of a condition, comparisons flipped.
+func c10negate(e ast.Expr) ast.Expr {
+	e = c10unparen(e)
+	if b, ok := e.(*ast.BinaryExpr); ok {
+		flip := map[token.Token]token.Token{token.EQL: token.NEQ, token.NEQ: token.EQL, token.LSS: token.GEQ,
+			token.GEQ: token.LSS, token.GTR: token.LEQ, token.LEQ: token.GTR}
+		if op, ok := flip[b.Op]; ok {
+			return &ast.BinaryExpr{X: b.X, Op: op, Y: b.Y}
+		}
+	}
+	if u, ok := e.(*ast.UnaryExpr); ok && u.Op == token.NOT {
+		return u.X
+	}
+	return &ast.UnaryExpr{Op: token.NOT, X: &ast.ParenExpr{X: e}}
 }
 
 func c10hasIndex(e ast.Expr) bool {
@@ -601,7 +770,14 @@ func (c *c10) find(what string, list []string, from int, re string, names ...str
 			return i
 		}
 	}
-	c.x.fail("%s: no event matches %s", what, re)
+	if what == "ServeTCP" {
+		// the data flow of ServeTCP is an obligation (Props/C10Facts.lean): not finding it breaks the tie
+		c.x.fail("%s: no event matches %s", what, re)
+	} else {
+		// the shape of the two pure functions is a change detector (the pins in Props/C10Xlate.lean): the constant
+		// stays undefined, the pins stop building, the streams run at the widened budget
+		c.notes = append(c.notes, fmt.Sprintf("%s: no event matches %s", what, re))
+	}
 	return len(list)
 }
 
